@@ -2133,3 +2133,62 @@ fn st_send_publish_v5_manual_alias_rebind1() {
     core::mem::forget(ev);
     core::mem::forget(c);
 }
+
+// =================================================================== fast variants for the quick tier (one path each)
+fn recv_publish_q2_v311_case(duplicate: bool) {
+    let mut c = fam_client_connected(Version::V3_1_1);
+    c.auto_pub_response = false;
+    let h: u16 = kani::any();
+    kani::assume(h != 0);
+    c.qos2_publish_handled.insert(h);
+    let r: u16 = if duplicate { h } else { kani::any() };
+    kani::assume(r != 0 && (duplicate || r != h));
+    let dup: bool = kani::any();
+    let pre = tm_of(&c);
+    let body: [u8; 6] = [0, 1, b't', (r >> 8) as u8, r as u8, kani::any()];
+    let raw = pbh::verif_raw(0x34 | ((dup as u8) << 3), &body);
+    let ev = c.process_recv_v3_1_1_publish(raw);
+    monitor(pre, &ev, &c);
+    if duplicate {
+        assert!(count(&ev, is_recv) == 0, "[C07] a retransmission of an already notified QoS2 PUBLISH is not notified again");
+        assert!(count(&ev, is_send) == 1, "[C07] it is answered with PUBREC");
+    } else {
+        assert!(count(&ev, is_recv) == 1, "[C07] a QoS2 PUBLISH with a new identifier is notified once");
+        assert!(count(&ev, is_send) == 0, "[C07] no automatic PUBREC when automatic responses are off");
+    }
+    assert!(c.qos2_publish_handled.contains(&r) && c.qos2_publish_handled.contains(&h), "[C07] id recorded as handled until PUBREL");
+    assert!(count(&ev, is_any_err) == 0, "[C05] valid PUBLISH raises no error");
+    core::mem::forget(ev);
+    core::mem::forget(c);
+}
+#[kani::proof]
+#[kani::unwind(2)]
+#[kani::stub(core::str::from_utf8, utf8_model)]
+fn st_recv_publish_q2_v311_new() {
+    recv_publish_q2_v311_case(false)
+}
+#[kani::proof]
+#[kani::unwind(2)]
+#[kani::stub(core::str::from_utf8, utf8_model)]
+fn st_recv_publish_q2_v311_dup() {
+    recv_publish_q2_v311_case(true)
+}
+
+// vacancy arithmetic for all values
+#[kani::proof]
+#[kani::unwind(2)]
+fn c12_vacancy_kernel() {
+    let mut c = CC::new(Version::V5_0);
+    let m: Option<u16> = kani::any();
+    let cnt: u16 = kani::any();
+    c.publish_send_max = m;
+    c.publish_send_count = cnt;
+    let v = c.get_receive_maximum_vacancy_for_send();
+    match m {
+        None => assert!(v.is_none(), "[C12] no vacancy is reported without a peer Receive Maximum"),
+        Some(mx) => {
+            assert!(v == Some(if cnt >= mx { 0 } else { mx - cnt }), "[C12] vacancy equals M minus the incomplete exchanges, saturating at zero (never wraps)");
+        }
+    }
+    core::mem::forget(c);
+}
